@@ -47,4 +47,10 @@ TEXT = {
         "level_text": "Generated-input search: advertisements (all combinations of optional parts, present-but-empty extended providers, maximal context ID / metadata, arbitrary signature bytes) and entry chunks (0..200 multihashes, with and without next) are encoded in DAG-JSON and DAG-CBOR, decoded and compared with a hand-written semantic equality; stored twice through a link system (same CID), loaded with the generic and the typed prototype and through BytesTo...; decoders are fed mutated encodings and raw bytes with the oracle 'error, or re-encodable to an equal value, never a panic'. Thorough adds coverage-guided fuzzing of the decoder oracle.",
         "level_note": "Trusted: go-ipld-prime codecs and link system (the round trip goes through them), the harness's equality (nil == empty for lists and bytes; presence of optional parts preserved).",
     },
+    "C10": {
+        "engine": "h23",
+        "technique": "property-based testing (rapid): codec round trips, sender wire capture, byte-mutation decoding with an allocation meter; native go fuzzing (thorough)",
+        "level_text": "Generated-input search: messages (any CID, 0..32 address byte strings incl. unregistered protocol codes and empty strings, extra data to 4 KiB, optional OrigPeer) round-trip through CBOR and JSON; the 3/4-field form is checked; GetAddrs is compared with the known-protocol sublist; httpsender Send/SendJson are run against a loopback capture server and the captured body must decode to the original with /p2p/<publisher> appended; announce.Send is checked with recording senders. Decoder: mutated encodings with hostile CBOR headers (lengths 2^63, 2^64-1, 2 MiB+-1, 8192+-1, indefinite markers): no panic, error or re-encode fixpoint, TotalAlloc delta within the fixed caps. Thorough adds native fuzzing.",
+        "level_note": "Trusted: runtime.MemStats as allocation meter; loopback HTTP. The p2psender (gossipsub) path is exercised by C09's pubsub cases only. Messages whose every address has an unknown protocol may go on the wire with a bare /p2p/<id> address or none: not asserted.",
+    },
 }
